@@ -1,4 +1,5 @@
 import PedVerif.Lemmas.CheckerEnvs
+import PedVerif.Lemmas.CallLayer4
 /-!
 # C06 — incomplete annotations are always rejected, independent of the value (checker level)
 
@@ -27,13 +28,187 @@ theorem bare_never_accepts (env : Env) (orc : Nat → Val → Raw) (o : BareOrig
 
 /-- the verdict of a typing-spelled bare generic does not even look at the value -/
 theorem bare_typing_value_independent (env : Env) (orc : Nat → Val → Raw) (o : BareOrigin) (v v' : Val)
-    (hb : o.isBuiltin = false) (ht : o ≠ .tType) :
+    (hb : o.isBuiltin = false) :
     checkType env orc (.bare o) v = checkType env orc (.bare o) v' := by
-  simp [checkType, isInstance, bareNode, cfg_req_bare o hb ht]
+  simp [checkType, isInstance, bareNode, cfg_req_bare o hb]
 
 example : checkType envW (fun _ _ => .raisedOther) (.bare .list) (.coll 4 []) = .pedErr := by decide
 example : checkType envW (fun _ _ => .raisedOther) (.bare .tTuple) (.tup 5 []) = .pedErr := by decide
 example : checkType envW (fun _ _ => .raisedOther) (.bare .tType) (.clsObj 2) = .pedErr := by decide
-example : checkType envW (fun _ _ => .raisedOther) (.bare .tType) (.inst 7) = .reject := by decide
+example : checkType envW (fun _ _ => .raisedOther) (.bare .tType) (.inst 7) = .pedErr := by decide
 
 end PedVerif.Checker
+
+/-! ## call level: a @pedantic function with an incomplete annotation never hands a value back -/
+namespace PedVerif.Call
+open PedVerif.Checker PedVerif.Gen.CallTables PedVerif.Gen.TypeTables
+
+theorem checkVal_bare (env : Env) (orc) (f : Fn) (args : List Val) (o : BareOrigin) (v : Val) :
+    checkVal env orc f args (.bare o) v ≠ none := by
+  intro h
+  exact bare_never_accepts env orc o v (checkVal_none env orc f args _ v h)
+
+theorem incompleteTop_bare (o : BareOrigin) : incompleteTop (.bare o) = true := by
+  by_cases hb : o.isBuiltin = true
+  · have := cfg_completeBare o hb
+    simp only [List.contains_iff_mem] at this
+    simp [incompleteTop, hb, this]
+  · simp [incompleteTop, cfg_completeUsesRequired, cfg_req_bare o (by simpa using hb)]
+
+/-- the parameter fold never lets an un-annotated or bare parameter through - whatever the supplied values are -/
+theorem checkParams_incomplete (env : Env) (orc) (f : Fn) (args : List Val) (kw : List (NameId × Val)) :
+    ∀ (ps : List Param) (idx : Nat), (∃ p ∈ ps, incompleteAnn p.ann = true) → checkParams env orc f args kw ps idx ≠ none := by
+  intro ps
+  induction ps with
+  | nil => intro idx ⟨p, hp, _⟩; simp at hp
+  | cons q qs ih =>
+    intro idx hinc hnone
+    have hlater : incompleteAnn q.ann = false → ∀ idx', checkParams env orc f args kw qs idx' ≠ none := by
+      intro hq idx'
+      obtain ⟨p, hp, hb⟩ := hinc
+      simp only [List.mem_cons] at hp
+      rcases hp with rfl | hp
+      · simp [hq] at hb
+      · exact ih idx' ⟨p, hp, hb⟩
+    simp only [checkParams] at hnone
+    cases hann : q.ann with
+    | none => simp [hann] at hnone
+    | some a =>
+      simp only [hann] at hnone
+      have key : ∀ v idx', orElse (checkVal env orc f args a v) (fun _ => checkParams env orc f args kw qs idx') = none → False := by
+        intro v idx' h
+        rw [orElse_none] at h
+        by_cases hb : ∃ o, a = .bare o
+        · obtain ⟨o, rfl⟩ := hb; exact checkVal_bare env orc f args o v h.1
+        · have : incompleteAnn q.ann = false := by
+            rw [hann]; cases a <;> simp_all [incompleteAnn]
+          exact hlater this idx' h.2
+      split at hnone
+      · split at hnone
+        · split at hnone
+          · simp at hnone
+          · exact key _ _ hnone
+        · split at hnone
+          · split at hnone
+            · exact key _ _ hnone
+            · split at hnone
+              · exact key _ _ hnone
+              · simp at hnone
+          · split at hnone
+            · exact key _ _ hnone
+            · split at hnone <;> simp at hnone
+      · exact key _ _ hnone
+
+theorem checkArguments_incomplete (env : Env) (orc) (f : Fn) (args : List Val) (kw : List (NameId × Val))
+    (hinc : incompleteParam f = true) : checkArguments env orc f args kw ≠ none := by
+  rw [checkArguments_eq]
+  intro h
+  rw [orElse_none] at h
+  obtain ⟨h1, h2⟩ := h
+  rw [orElse_none] at h2
+  simp only [incompleteParam, Bool.or_eq_true, List.any_eq_true] at hinc
+  rcases hinc with (⟨p, hp, hb⟩ | hb) | hb
+  · exact checkParams_incomplete env orc f args kw f.plain _ ⟨p, hp, hb⟩ h1
+  · have := h2.1
+    simp only [checkStar, cfg_star, Bool.true_and, ↓reduceIte] at this
+    cases hs : f.star with
+    | none => simp [hs] at hb
+    | some p =>
+      simp only [hs] at hb this
+      cases ha : p.ann with
+      | none => simp [ha] at this
+      | some a =>
+        simp only [ha] at hb this
+        cases a <;> simp [incompleteAnn] at hb
+        rename_i o
+        simp [incompleteTop_bare o] at this
+  · have := h2.2
+    simp only [checkDStar, cfg_dstar, Bool.true_and, ↓reduceIte] at this
+    cases hs : f.dstar with
+    | none => simp [hs] at hb
+    | some p =>
+      simp only [hs] at hb this
+      cases ha : p.ann with
+      | none => simp [ha] at this
+      | some a =>
+        simp only [ha] at hb this
+        cases a <;> simp [incompleteAnn] at hb
+        rename_i o
+        simp [incompleteTop_bare o] at this
+
+/-- **C06 (parameters).** A @pedantic function with an un-annotated or bare parameter (declared, *args or **kwargs) never
+    runs its body and never returns a value - for every call, positional or keyword, and every argument value. -/
+theorem incomplete_param_never_returns (env : Env) (orc) (f : Fn) (args : List Val) (kw : List (NameId × Val)) (body : BodyOut)
+    (hmode : f.mode = .pedantic) (hinc : incompleteParam f = true) :
+    (runCall env orc f args kw body).bodyRan = false ∧ (runCall env orc f args kw body).caller ≠ .ret ∧
+    (runCall env orc f args kw body).caller ≠ .retGen := by
+  by_cases hinit : (f.firstIsSelf && args.isEmpty) = true
+  · unfold runCall; simp [hinit]
+  · by_cases hkw : (f.shouldHaveKwargs && !(f.argsWithoutSelf args).isEmpty) = true
+    · unfold runCall; simp [hinit, hkw]
+    · rw [runCall_pedantic env orc f args kw body hmode (by simpa using hinit) (by simpa using hkw)]
+      cases hca : checkArguments env orc f args kw with
+      | none => exact absurd hca (checkArguments_incomplete env orc f args kw hinc)
+      | some c =>
+        have := checkArguments_fail env orc f args kw c hca
+        refine ⟨rfl, ?_, ?_⟩ <;> (intro h; simp only at h; subst h; simp [Caller.isCheckFailure] at this)
+
+/-- … and for a keyword call the exception is PedanticTypeCheckException -/
+theorem incomplete_param_is_typecheck (env : Env) (orc) (horc : ∀ k v, orc k v ≠ .raisedTV) (f : Fn) (args : List Val)
+    (kw : List (NameId × Val)) (body : BodyOut) (hmode : f.mode = .pedantic) (hinc : incompleteParam f = true)
+    (hinit : (f.firstIsSelf && args.isEmpty) = false) (hkw : (f.shouldHaveKwargs && !(f.argsWithoutSelf args).isEmpty) = false)
+    (hc : f.clazzFails args = false) :
+    runCall env orc f args kw body = ⟨.pedTypeCheck, false, [], []⟩ := by
+  rw [runCall_pedantic env orc f args kw body hmode hinit hkw]
+  cases hca : checkArguments env orc f args kw with
+  | none => exact absurd hca (checkArguments_incomplete env orc f args kw hinc)
+  | some c => rw [checkArguments_some_tc env orc horc f args kw hc c hca]
+
+/-- **C06 (return).** A missing or bare return annotation: the caller never receives the value (here the exception is
+    raised after the body ran - the property allows that for the return annotation). -/
+theorem incomplete_return_never_returns (env : Env) (orc) (f : Fn) (args : List Val) (kw : List (NameId × Val)) (body : BodyOut)
+    (hmode : f.mode = .pedantic) (hfl : f.flavour ≠ .generator) (hinc : incompleteReturn f = true) :
+    (runCall env orc f args kw body).caller ≠ .ret := by
+  by_cases hinit : (f.firstIsSelf && args.isEmpty) = true
+  · unfold runCall; simp [hinit]
+  · by_cases hkw : (f.shouldHaveKwargs && !(f.argsWithoutSelf args).isEmpty) = true
+    · unfold runCall; simp [hinit, hkw]
+    · rw [runCall_pedantic env orc f args kw body hmode (by simpa using hinit) (by simpa using hkw)]
+      cases hca : checkArguments env orc f args kw with
+      | some c => exact fun h => absurd (by simpa using h ▸ hca) (checkArguments_ne_ret env orc f args kw).1
+      | none =>
+        simp only [invoke, hmode]
+        split
+        · simp
+        · unfold retCheck
+          cases body with
+          | raises e => simp
+          | ret r =>
+            simp only [incompleteReturn] at hinc
+            cases ha : f.retAnn with
+            | none => simp
+            | some a =>
+              have hfl' : (f.flavour == .generator) = false := by cases h : f.flavour <;> simp_all
+              simp only [hfl', Bool.false_eq_true, ↓reduceIte]
+              rw [ha] at hinc
+              cases a <;> simp [incompleteAnn] at hinc
+              rename_i o
+              cases hcv : checkVal env orc f args (.bare o) r with
+              | none => exact absurd hcv (checkVal_bare env orc f args o r)
+              | some c => simp only; intro h; subst h; exact checkVal_ne_ret env orc f args _ r hcv
+
+-- non-vacuity: `def f(a, b: int) -> int` called `f(a=1, b=2)`; `def g(*args: list) -> int` called `g()`
+def unannotated : Fn :=
+  { name := "f", flags := flagsOfSource "f" "@pedantic\ndef f(a, b: int) -> int:\n    return 1\n", qualDotted := false,
+    params := [{ name := 1, kind := .posOrKw, ann := none, dflt := none }, { name := 2, kind := .posOrKw, ann := some (.cls 2), dflt := none }],
+    selfName := 0, firstIsSelf := false, isBound := false, retAnn := some (.cls 2), genRet := .notGenType, flavour := .sync, mode := .pedantic }
+example : incompleteParam unannotated = true ∧
+    (runCall envW (fun _ _ => .raisedOther) unannotated [] [(1, .lit (.int 1)), (2, .lit (.int 2))] (.ret (.lit (.int 1)))).caller = .pedTypeCheck := by decide
+def bareStar : Fn :=
+  { unannotated with
+    flags := flagsOfSource "g" "@pedantic\ndef g(*args: list) -> int:\n    return 1\n"
+    params := [{ name := 3, kind := .varPos, ann := some (.bare .list), dflt := none }] }
+example : incompleteParam bareStar = true ∧
+    (runCall envW (fun _ _ => .raisedOther) bareStar [] [] (.ret (.lit (.int 1)))).caller = .pedTypeCheck := by decide
+
+end PedVerif.Call
